@@ -92,6 +92,27 @@ def plain (ev : Str → Except Fail (Node × List GenericsDef)) (name : Str) : E
   let r ← ev name
   if r.2.isEmpty then .ok r.1 else kerr .invalidTypStatement [name]
 
+/-- one type argument: a plain module that provides what the parameter's bound requires -/
+def actual (ev : Str → Except Fail (Node × List GenericsDef)) (t : TypClause Str)
+    (p : GenericsDef × Str) : Except Fail (Str × Node) := do
+  let c ← plain ev p.2
+  let i ← ev p.1.bound
+  if c.conformTo i.1 then .ok (p.1.binding, c)
+  else kerr .assignedTypDoesNotConformToInterface [t.ident]
+
+/-- a generic module's own submodules that were declared with a type parameter get the argument;
+    the inherited submodules (the rest of the list) stay -/
+def substOwn (actuals : List (Str × Node)) :
+    List (FieldDef × TypClause Str) → List (FieldDef × Node) → List (FieldDef × Node)
+  | [], ss => ss
+  | _ :: _, [] => []
+  | (_, ty) :: ds, s :: ss =>
+    (if ty.args.isEmpty then
+      match actuals.find? (fun a => a.1 = ty.ident) with
+      | some a => (s.1, a.2)
+      | none => s
+    else s) :: substOwn actuals ds ss
+
 /-- ⟦t⟧ for a submodule type `t` inside a module with generic parameters `params`;
     `ev` evaluates referenced modules, `decls` gives a module's own submodule declarations -/
 def evalType (ev : Str → Except Fail (Node × List GenericsDef))
@@ -110,24 +131,8 @@ def evalType (ev : Str → Except Fail (Node × List GenericsDef))
     let g ← ev t.ident
     if g.2.length ≠ t.args.length then kerr .invalidTypStatement [t.ident]
     else do
-      -- every argument is a plain module that provides what the bound requires
-      let actuals ← (g.2.zip t.args).mapM fun (p : GenericsDef × Str) => do
-        let c ← plain ev p.2
-        let i ← ev p.1.bound
-        if c.conformTo i.1 then .ok (p.1.binding, c)
-        else kerr .assignedTypDoesNotConformToInterface [t.ident]
-      -- the generic module's own submodules declared with a parameter get the argument
-      let own := decls t.ident
-      let subs := (List.range g.1.subs.length).zip g.1.subs |>.map fun (p : Nat × (FieldDef × Node)) =>
-        match own[p.1]? with
-        | some (_, ty) =>
-          if ty.args.isEmpty then
-            match actuals.find? (fun a => a.1 = ty.ident) with
-            | some a => (p.2.1, a.2)
-            | none => p.2
-          else p.2
-        | none => p.2
-      .ok (g.1.setSubs subs)
+      let actuals ← (g.2.zip t.args).mapM (actual ev t)
+      .ok (g.1.setSubs (substOwn actuals (decls t.ident) g.1.subs))
 
 def ownDecls (d : Def) (name : Str) : List (FieldDef × TypClause Str) :=
   match d.modules.find? (fun km => km.1.ident = name) with
